@@ -11,6 +11,8 @@
 (*             the per-SNI rule (reload), of the client CA, or none ; conn offering   *)
 (*             the session on SNI a|b (other VIP/SNI sharing key and cache) with the  *)
 (*             same certificate, the other CA's, or a forgery                         *)
+(*   "rotate"  conn (fresh) ; reload of the ticket key file (same name / other name /  *)
+(*             identical file) ; conn offering the ticket ; reload back ; offer again *)
 (*   "file"    steps are read from histories.ndjson (seeded sampling, TicketGen)     *)
 EXTENDS Ticket
 
@@ -25,7 +27,13 @@ tvars == <<e, saved, n, last>>
 Thorough == Tier = "thorough"
 
 \* ------------------------------------------------------------------ domains
-Keys == {1, 2}
+\* ticket keys = key files (16-byte name + 32 bytes of key material): 1 and 2 carry the SAME name and
+\* different material (a rotation that keeps the name), 3 has another name.  What identifies "the
+\* current key" in Layer P is the material.  The binding performs every key change through the server's
+\* reload entry point bfe_server.HttpsListener.UpdateSessionTicketKey.
+Keys == {1, 2} \cup (IF Thorough THEN {3} ELSE {})
+KeyName(k) == IF k = 3 THEN 2 ELSE 1
+AllKeys == {1, 2, 3}
 CacheGens == {0, 1, 2}
 SvMaxes == {0, 11} \cup (IF Thorough THEN {10} ELSE {})
 SvSuites == {<<"EG", "EC">>, <<"EC">>, <<"CH", "EG", "EC">>} \cup (IF Thorough THEN {<<"EG">>, <<"RC", "EC">>} ELSE {})
@@ -64,6 +72,7 @@ StdRawS == [StdGo EXCEPT !.kind = "raw", !.noticket = TRUE]
 \* initial epochs per preset
 Init0 == CASE Preset = "mc" -> {Epoch0, RequireGlobal, RequireByRule}
            [] Preset = "tamper" -> {[x EXCEPT !.max = m] : x \in {Epoch0, RequireGlobal, RequireByRule}, m \in {0, 11}}
+           [] Preset = "rotate" -> {[Epoch0 EXCEPT !.key = k] : k \in AllKeys}
            [] Preset = "policy" -> {[Epoch0 EXCEPT !.auth = a, !.rule = r, !.suites = <<"CH", "EG", "EC">>] :
                                        a \in (IF Thorough THEN Auths ELSE {"none", "require"}), r \in {NoRule, AuthRule, TRule("C", FALSE, TRUE), TRule("A+", FALSE, FALSE)}}
            [] Preset = "config" -> {[Epoch0 EXCEPT !.auth = a, !.max = m] : a \in Auths, m \in {0, 11}}
@@ -99,6 +108,11 @@ Inputs ==
         ELSE IF n = 1 THEN {EpochIn(x) : x \in OneChange(e) \cup {e}}
         ELSE IF n = 2 THEN {ConnIn(c, "saved", "none") :
                               c \in {x \in Clients : x.kind = last.kind /\ x.noticket = last.noticket}}
+        ELSE {}
+    [] Preset = "rotate" ->
+        IF n = 0 THEN {ConnIn(c, "none", "none") : c \in {StdGo, StdRawT}}
+        ELSE IF n \in {1, 3} THEN {EpochIn([e EXCEPT !.key = k]) : k \in AllKeys}
+        ELSE IF n \in {2, 4} THEN {ConnIn(last.cl, "saved", "none")}
         ELSE {}
     [] Preset = "policy" ->
         IF n = 0 THEN {ConnIn([c EXCEPT !.cert = ct, !.sni = sn, !.suites = <<"EG", "CH", "EC">>], "none", "none") :
